@@ -127,7 +127,8 @@ def run_tlc(module, cfg, workdir, workers=8, timeout=1800, env=None, heap="4g", 
     # TLC exit codes: 0 ok, 12 safety violation, 13 liveness violation, others = errors
     res["ok"] = (rc == 0)
     if rc not in (0, 12, 13) and res["rejected_at"] is None:
-        tail = open(logpath).read()[-3000:]
+        lines = [l for l in open(logpath).read().splitlines() if not l.startswith(("Parsing file", "Semantic processing"))]
+        tail = "\n".join(lines)[-2500:]
         raise ToolError("TLC failed on %s (%s) rc=%d\n%s" % (module, cfg, rc, tail))
     return res
 
